@@ -3,7 +3,7 @@ use crate::envelope::{hex, Datagram, Protocol, Segment, Syn};
 use crate::fs::{Fs, FsConfig};
 #[cfg(feature = "unstable-io_uring")]
 use crate::io_uring::host::IoUringHostState;
-use crate::net::tcp::stream::BidiFlowControl;
+use crate::net::tcp::stream::{BidiFlowControl, FlowControl};
 use crate::net::{SocketPair, TcpListener, UdpSocket};
 use crate::{Envelope, TRACING_TARGET};
 
@@ -530,6 +530,20 @@ impl Tcp {
     pub(crate) fn assign_send_seq(&mut self, pair: SocketPair) -> Option<u64> {
         let sock = self.sockets.get_mut(&pair)?;
         Some(sock.assign_seq())
+    }
+
+    /// Whether the stream socket registered under `pair` is the one the
+    /// stream half holding `half` belongs to.
+    ///
+    /// A stream that was reset loses its socket entry while the application
+    /// may keep the `TcpStream` around; once the ephemeral port is reused
+    /// towards the same peer, a newer connection lives under the very same
+    /// `SocketPair`. The stale halves must not act on it.
+    pub(crate) fn owns_stream(&self, pair: SocketPair, half: &Arc<FlowControl>) -> bool {
+        self.sockets
+            .get(&pair)
+            .map(|sock| sock.flow_control.contains(half))
+            .unwrap_or(false)
     }
 
     fn receive_from_network(
